@@ -1,5 +1,5 @@
 (* C20 property theorems. Nothing but statements closed by [exact] and Print Assumptions. *)
-From VF Require Import C20.Model C20.Proofs C20.Check.
+From VF Require Import C20.Model C20.Proofs C20.Check C20.Uniform.
 Local Open Scope Z_scope.
 
 (* every bounded generator returns a value in [0, n) for every n > 0, every draw stream and every
@@ -50,6 +50,28 @@ Proof. exact read_exact. Qed.
 Theorem C20_perm_checker_sound : forall n l, is_perm_b n l = true -> Permutation l (map Z.of_nat (seq 0 n)).
 Proof. exact is_perm_b_ok. Qed.
 
+
+(* Uniformity. Uint32n: the draws v mapped to residue r by (v*n) >> 32 are exactly one interval whose length is
+   floor(2^32/n) or ceil(2^32/n): residues are hit as evenly as 2^32 draws allow. Int31n: a draw is accepted iff
+   2^32 mod n <= (v*n) mod 2^32 (this IS the code's test, C20_int31n_first_draw), and the accepted draws of residue r
+   are exactly one interval of floor(2^32/n) values: every residue is equally likely for a uniform source. *)
+Theorem C20_uint32n_preimage : forall n v r, 0 < n -> 0 <= v ->
+  ((v * n) / M32 = r <-> cdiv (r * M32) n <= v < cdiv ((r + 1) * M32) n).
+Proof. exact mulshift_preimage. Qed.
+Theorem C20_uint32n_even : forall n r, 0 < n -> 0 <= r ->
+  M32 / n <= cdiv ((r + 1) * M32) n - cdiv (r * M32) n <= M32 / n + 1.
+Proof. exact interval_len. Qed.
+Theorem C20_int31n_first_draw : forall fuel n s v s', 0 < n < M32 -> 0 <= v -> uint32 s = Ok v s' ->
+  int31n fuel n s =
+  if M32 mod n <=? (v * n) mod M32 then Ok ((v * n) / M32) s' else int31n_loop fuel n (M32 mod n) s'.
+Proof. exact int31n_first_draw. Qed.
+Theorem C20_int31n_accepted_preimage : forall n v r, 0 < n -> 0 <= v -> 0 <= r ->
+  ((v * n) / M32 = r /\ M32 mod n <= (v * n) mod M32) <-> cdiv (r * M32 + M32 mod n) n <= v < cdiv ((r + 1) * M32) n.
+Proof. exact accepted_preimage. Qed.
+Theorem C20_int31n_exactly_uniform : forall n r, 0 < n -> 0 <= r ->
+  cdiv ((r + 1) * M32) n - cdiv (r * M32 + M32 mod n) n = M32 / n.
+Proof. exact accepted_len. Qed.
+
 (* non-vacuity: a concrete stream on which each function returns Ok *)
 Example C20_nonvacuous :
   let s := {| vs := [4000000000; 17; 123456789; 99; 3000000000; 5; 6; 7]; rs := [1; 2; 3; 4; 5; 6] |} in
@@ -74,3 +96,8 @@ Print Assumptions C20_shuffle_indexes.
 Print Assumptions C20_shuffle_permutes.
 Print Assumptions C20_read_exact.
 Print Assumptions C20_perm_checker_sound.
+Print Assumptions C20_uint32n_preimage.
+Print Assumptions C20_uint32n_even.
+Print Assumptions C20_int31n_first_draw.
+Print Assumptions C20_int31n_accepted_preimage.
+Print Assumptions C20_int31n_exactly_uniform.
